@@ -156,16 +156,16 @@ def encodeDirectG (R : Sched) (o : Opts) (c : Ctx) (e : Enc) (h : Hdr) (ds0 : Na
   (updateFileHeaderG R r3.1 h ds0).bind fun r4 =>
   .ret (r4.1, r3.2.1, if r4.2.2 then .ok else .err)
 
-def encodeEarlyG (R : Sched) (o : Opts) (c : Ctx) (e : Enc) (h : Hdr) (ms : List WMsg) : Run (Enc × Ctx × Res × Bool) :=
+def encodeEarlyG (cc : CtxCfg) (R : Sched) (o : Opts) (c : Ctx) (e : Enc) (h : Hdr) (ms : List WMsg) : Run (Enc × Ctx × Res × Bool) :=
   (dryPassG o c e.es e.dataSize ms).bind fun d =>
   match d with
-  | (c', none) => .ret (e, c', .ec, true)
+  | (c', none) => .ret (e, c', .ec, !cc.restoresWriter)
   | (c', some dry) =>
     (encodeBodyG false R o c' (e.reset o) h dry.1 dry.2).bind fun r => .ret (r.1, r.2.1, r.2.2, false)
 
 /-- `Encode` / `EncodeWithContext` after `validateMessages`. `nilw`: the encoder was made with a nil writer — the type switch
 takes its `default` branch ("writer is nil"), no strategy runs. -/
-def encodeG (nilw : Bool) (R : Sched) (o : Opts) (c : Ctx) (x : EncC) (f : FitIn) : Run (EncC × Res) :=
+def encodeG (cc : CtxCfg) (nilw : Bool) (R : Sched) (o : Opts) (c : Ctx) (x : EncC) (f : FitIn) : Run (EncC × Res) :=
   if nilw then .ret ({ x with e := x.e.reset o }, .err)
   else if x.discard then
     -- the early-check strategy against `io.Discard`: the dry run, the header, and a second pass that is a dry run as well
@@ -179,20 +179,20 @@ def encodeG (nilw : Bool) (R : Sched) (o : Opts) (c : Ctx) (x : EncC) (f : FitIn
   else
     (if x.e.w.kind.direct then
         (encodeDirectG R o c x.e f.hdr f.ds0 f.msgs).bind fun d => .ret (d.1, d.2.1, d.2.2, false)
-      else encodeEarlyG R o c x.e f.hdr f.msgs).bind fun (r : Enc × Ctx × Res × Bool) =>
+      else encodeEarlyG cc R o c x.e f.hdr f.msgs).bind fun (r : Enc × Ctx × Res × Bool) =>
     let e' := r.1.reset o
     if r.2.2.1 != .ok then .ret ({ e := e', discard := r.2.2.2 }, r.2.2.1)
     else (e'.w.flushG false R).bind fun fl =>
       .ret ({ e := { e' with w := fl.1 }, discard := false }, if fl.2 then .ok else .err)
 
 /-- `Encode` / `EncodeWithContext` as the API has them (validators in front, as `encodeV`) -/
-def encodeVG {σ : Type} (V : MsgValidator σ) (nilw : Bool) (R : Sched) (o : Opts) (c : Ctx) (x : EncC) (f : FitIn) : Run (EncC × Res) :=
+def encodeVG {σ : Type} (V : MsgValidator σ) (cc : CtxCfg) (nilw : Bool) (R : Sched) (o : Opts) (c : Ctx) (x : EncC) (f : FitIn) : Run (EncC × Res) :=
   if f.msgs.isEmpty then .ret (x, .ee)
   else if !f.msgs.all (protoOK f.hdr.protoVer) then .ret (x, .ep)
   else
     match validateAll V V.init f.msgs with
     | none => .ret (x, .ev)
-    | some ms' => encodeG nilw R o c x { f with msgs := ms' }
+    | some ms' => encodeG cc nilw R o c x { f with msgs := ms' }
 
 /-! ### stream encoder (`NewStream` refuses a nil writer and a plain one: the writer is never nil here) -/
 
@@ -232,11 +232,11 @@ structure EncCall where
   fit : FitIn
 
 /-- a series of calls on one `Encoder`, whatever the results (the caller may go on after an error); `.panic` as soon as a call panics -/
-def runEncCalls {σ : Type} (V : MsgValidator σ) (nilw : Bool) (R : Sched) (o : Opts) : EncC → List EncCall → Run (EncC × List Res)
+def runEncCalls {σ : Type} (V : MsgValidator σ) (cc : CtxCfg) (nilw : Bool) (R : Sched) (o : Opts) : EncC → List EncCall → Run (EncC × List Res)
   | x, [] => .ret (x, [])
   | x, c :: cs =>
-    (encodeVG V nilw R o c.ctx x c.fit).bind fun r =>
-    (runEncCalls V nilw R o r.1 cs).bind fun t => .ret (t.1, r.2 :: t.2)
+    (encodeVG V cc nilw R o c.ctx x c.fit).bind fun r =>
+    (runEncCalls V cc nilw R o r.1 cs).bind fun t => .ret (t.1, r.2 :: t.2)
 
 /-- one call on a `StreamEncoder` -/
 inductive StreamCall
